@@ -33,7 +33,7 @@ def shards(tier, seed):
 
 def floors(tier):
     return {"solves:in_process": 120, "solves:other_process": 120, "config:hybrid": 15, "config:evolutionary": 15, "config:n_emitter>1": 10,
-            "config:dm": 10, "hof:entries_checked": 150, "hof:updates_observed": 200, "generations:checked": 200, "aliasing:checks": 200, "config:seed_0": 3, "config:start_circuit_given": 8, "config:probabilistic_outcomes": 4, "config:noise_map:hybrid": 5, "config:noise_map:evolutionary": 5}
+            "config:dm": 10, "hof:entries_checked": 150, "hof:updates_observed": 200, "generations:checked": 200, "aliasing:checks": 200, "config:seed_0": 3, "config:start_circuit_given": 8, "config:probabilistic_outcomes": 4, "config:selection_with_tournaments_of_one": 12, "config:noise_map:hybrid": 5, "config:noise_map:evolutionary": 5}
 
 
 def make_config(rng):
@@ -48,6 +48,15 @@ def make_config(rng):
     else:
         A = graphs.random_connected_graph(rng, n, 0.5)
     hybrid = bool(rng.integers(2))
+    cfg = _make_config(rng, A, hybrid)
+    if rng.random() < 0.15:
+        # selection on with tournaments of one: every generation draws members with replacement, the corner in which a member
+        # drawn twice must still be two independent circuits
+        cfg.update({"selection": True, "tournament_k": 1, "n_stop": max(cfg["n_stop"], 5), "n_pop": max(cfg["n_pop"], 6), "det": 1 if cfg["det"] == "probabilistic" else cfg["det"]})
+    return cfg
+
+
+def _make_config(rng, A, hybrid):
     return {"adj": A.tolist(), "hybrid": hybrid, "n_emitter": int(rng.integers(1, min(3, A.shape[0]) + 1)),
             "backend": "DensityMatrixCompiler" if (rng.random() < 0.45 and not hybrid) else "StabilizerCompiler",
             "n_pop": int(rng.integers(3, 9)), "n_stop": int(rng.integers(3, 9)), "n_hof": int(rng.integers(1, 6)),
@@ -253,6 +262,8 @@ def check_config(cfg, ctx, m, mon, probe):
         ctx.count("config:seed_0")
     if cfg.get("noise"):
         ctx.count("config:noise_map" + (":hybrid" if cfg["hybrid"] else ":evolutionary"))
+    if cfg["selection"] and cfg["tournament_k"] == 1:
+        ctx.count("config:selection_with_tournaments_of_one")
     if cfg["backend"].startswith("Density"):
         ctx.count("config:dm")
     if cfg["n_emitter"] > 1 and not cfg["hybrid"]:
